@@ -35,7 +35,9 @@ CLAIM = dict(
 THEOREMS = ["links_consistent", "hexLen_unit_step", "meshLen_eq_dist", "torusLen_eq_dist", "torusLen_error",
             "minimise_xyz_spec", "toXyz_proj", "meshPath_ok", "torusPath_ok", "randint_surjective",
             "ldf_walk", "ldfOk_meaning",
-            "hexagons_exact", "hexagons_negative", "hexDist_is_graph_distance"]
+            "hexagons_exact", "hexagons_negative", "hexDist_is_graph_distance",
+            "fromVector_wrap", "oracle_distIs_iff", "oracle_levelOf_isDist", "linksBetween_exact",
+            "specLinksBetween_mem", "opposite_returns"]
 
 RULE = ("torus cases: for chosen (w, h, source chip) every or many destination chips, each in a random three-axis "
         "representation (random z offset, occasional multiples of w/h added), sizes include every w,h in 1..5; "
